@@ -18,6 +18,14 @@ fragment InputValue on __InputValue { name description type { ...TypeRef } defau
 fragment TypeRef on __Type { kind name ofType { kind name ofType { kind name ofType { kind name ofType { kind name ofType { kind name \
 ofType { kind name ofType { kind name } } } } } } } }";
 
+/// The same query with `includeDeprecated: true` on the lists of input values (graphql-js
+/// `getIntrospectionQuery({ inputValueDeprecation: true })`).
+pub fn introspection_query_with_deprecated_inputs() -> String {
+    INTROSPECTION_QUERY
+        .replace("description args { ...InputValue } type { ...TypeRef } isDeprecated", "description args(includeDeprecated: true) { ...InputValue } type { ...TypeRef } isDeprecated")
+        .replace("inputFields { ...InputValue }", "inputFields(includeDeprecated: true) { ...InputValue }")
+}
+
 #[derive(Clone, Debug, PartialEq)]
 pub enum Issue {
     /// the response does not have the shape the introspection schema prescribes
